@@ -58,6 +58,8 @@ pipeline = None
 if sc.get("pipeline") is not None:
     try:
         pipeline = ProcessingPipeline.from_dict(copy.deepcopy(sc["pipeline"]))
+        if sc.get("pipeline2") is not None:
+            pipeline = pipeline + ProcessingPipeline.from_dict(copy.deepcopy(sc["pipeline2"]))
     except Exception as e:  # noqa: BLE001
         out["pipeline_error"] = rec(e)
 coll = None
